@@ -2,6 +2,4 @@
 import os
 from props._combine import make
 _c = "props.cparts.C05" if os.path.exists(os.path.join(os.path.dirname(__file__), "cparts", "C05.py")) else None
-if os.environ.get("VERIF_C05_C", "0") != "1":
-    _c = None      # the trxcon acceptance part is being adapted to the repaired trx_if.c (MEASURE hand-over clause); run it with VERIF_C05_C=1
 make(globals(), "C05", py="props.pyparts.C05", c=_c)
